@@ -45,6 +45,7 @@ pub fn history(index: u64, mut rng: Rng, tier: Tier, focus: &str) -> Outcome {
     }
     let mut prev = snap(v);
     check_ledger(&prev, &mut o, "initial");
+    let total0 = v.total_balance();
 
     for step in 0..nops {
         let epoch = v.epoch();
@@ -399,6 +400,16 @@ pub fn history(index: u64, mut rng: Rng, tier: Tier, focus: &str) -> Outcome {
         let after = snap(v);
         check_ledger(&after, &mut o, &format!("step {step}"));
         check_payments(&prev, &after, epoch, &terminated, &ext, &mut reg, &mut o, &format!("step {step}"));
+        if focus == "C01" {
+            o.count("conservation_checks");
+            if v.total_balance() != total0 {
+                o.violate("total_constant", "C01/total_fil_changed", format!("step {step}: sum of all balances {} -> {}", total0, v.total_balance()));
+            }
+            let se: TokenAmount = after.escrow.values().cloned().sum();
+            if se > after.balance {
+                o.violate("market_solvent", "C01/market_escrow_gt_balance", format!("step {step}: escrow total {se} > market balance {}", after.balance));
+            }
+        }
         // state-level activation must have been reported
         for (id, (_, ds)) in &after.deals {
             if ds.is_some() && reg.deals.get(id).is_some_and(|k| k.activated.is_none()) {
@@ -416,6 +427,7 @@ pub fn history(index: u64, mut rng: Rng, tier: Tier, focus: &str) -> Outcome {
     o.nontrivial = match focus {
         "C06" => published_ok >= 2 && o.counters.get("withdraw_ok").copied().unwrap_or(0) >= 1,
         "C07" => activations_ok >= 1 && finished >= 1,
+        "C01" => published_ok >= 2,
         _ => published_ok >= 2 && activations_ok >= 1,
     };
     // only this property's violations count
